@@ -9,7 +9,7 @@ import z3
 from . import ops as O
 from .ops import And, Or, Not, ite, Implies
 from .tensor import Tn, Unsupported
-from .values import (SymRaise, PathEnd, SStr, DType, Opaque, LibFn, RepoFn, CatList, StackList)
+from .values import (SymRaise, PathEnd, SStr, DType, Opaque, LibFn, RepoFn, CatList, StackList, KeyedLists)
 from .interp import Ctx, Interp, Obligation
 from .bind import BindError
 
@@ -38,9 +38,78 @@ def freeze(v):
     return v
 
 
+def keyed_from_list(lst, nkey):
+    """a concrete python list of lists of tuples as a keyed-list family"""
+    for sub in lst:
+        if not isinstance(sub, list) or any(not isinstance(t, tuple) or len(t) <= nkey for t in sub):
+            return None
+    width = None
+    for sub in lst:
+        for t in sub:
+            width = len(t) - nkey
+
+    def member(k, *ks):
+        out = False
+        for q, sub in enumerate(lst):
+            for t in sub:
+                out = Or(out, And(O.eq(k, q), *[O.eq(x, y) for x, y in zip(ks, t[:nkey])]))
+        return out
+
+    def payload(k, *ks):
+        res = None
+        for q, sub in enumerate(lst):
+            for t in sub:
+                hit = And(O.eq(k, q), *[O.eq(x, y) for x, y in zip(ks, t[:nkey])])
+                res = tuple(t[nkey:]) if res is None else tuple(ite(hit, x, y) for x, y in zip(t[nkey:], res))
+        return res if res is not None else tuple([0] * (width or 0))
+    return KeyedLists(len(lst), nkey, member, payload)
+
+
+def num_eq(x, y):
+    """equality of scalars; concrete floats are compared up to rounding (floats are reals here)"""
+    if isinstance(x, float) or isinstance(y, float):
+        if not O.any_sym(x, y):
+            import math
+            if math.isinf(x) or math.isinf(y) or math.isnan(x) or math.isnan(y):
+                return x == y
+            return abs(x - y) <= 1e-9 * (1.0 + abs(x) + abs(y))
+    return O.eq(x, y)
+
+
 def same(a, b, label='result'):
     """structural equality of a computed value and its specification: list of (label, formula)"""
     out = []
+    if isinstance(b, KeyedLists):
+        if isinstance(a, list):
+            a = keyed_from_list(a, b.nkey)
+            if a is None:
+                return [(label + ':concrete-list-shape', False)]
+        if not isinstance(a, KeyedLists) or a.nkey != b.nkey:
+            return [(label + ':keyed-list', False)]
+        out.append((label + ':count', O.eq(a.count, b.count)))
+        box = getattr(b, 'box', None)
+        if box is not None and not O.any_sym(b.count, *box):
+            import itertools as _it
+            okm, okp = True, True
+            for ks in _it.product(range(int(b.count)), *[range(int(d)) for d in box]):
+                ma, mb = bool(a.member(*ks)), bool(b.member(*ks))
+                if ma != mb:
+                    okm = False
+                elif mb:
+                    pa, pb = a.payload(*ks), b.payload(*ks)
+                    if len(pa) != len(pb) or not all(bool(num_eq(x, y)) for x, y in zip(pa, pb)):
+                        okp = False
+            return out + [(label + ':membership', okm), (label + ':payload', okp)]
+        ks = [O.fresh_int('key') for _ in range(b.nkey + 1)]
+        inr = And(0 <= ks[0], ks[0] < b.count)
+        out.append((label + ':membership', Implies(inr, O.Iff(a.member(*ks), b.member(*ks)))))
+        pa, pb = a.payload(*ks), b.payload(*ks)
+        if len(pa) == 0:
+            pa = pb
+        if len(pa) != len(pb):
+            return out + [(label + ':payload-arity', False)]
+        out.append((label + ':payload', Implies(And(inr, b.member(*ks)), And(*[num_eq(x, y) for x, y in zip(pa, pb)]))))
+        return out
     if isinstance(b, (CatList, StackList)):
         if isinstance(a, list):
             if len(a) != 0:
@@ -59,7 +128,7 @@ def same(a, b, label='result'):
         if a.rank != b.rank:
             return [(label + ':rank', False)]
         out.append((label + ':shape', And(*[O.eq(x, y) for x, y in zip(a.shape, b.shape)]) if a.rank else True))
-        out.append((label + ':elements', O.forall(b.shape, lambda *i: O.eq(a.elem(*i), b.elem(*i)))))
+        out.append((label + ':elements', O.forall(b.shape, lambda *i: num_eq(a.elem(*i), b.elem(*i)))))
         return out
     if isinstance(b, (tuple, list)):
         if not isinstance(a, (tuple, list)) or len(a) != len(b):
@@ -279,7 +348,7 @@ def verify_function(world, contract, report=None, only_cfg=None, scope=None):
             if npaths > MAX_PATHS:
                 rep.unsupported.append((cname, 'path limit exceeded'))
                 break
-            ctx = Ctx(prefix, fname='%s[%s]' % (short, cname))
+            ctx = Ctx(prefix, fname='%s[%s]' % (short, cname), opts={'small_scope': scope is not None})
             ctx.modifies = set(contract.modifies)
             interp = Interp(ctx, world)
             outcome = None
@@ -324,6 +393,9 @@ def verify_function(world, contract, report=None, only_cfg=None, scope=None):
                                 ctx.oblige('p%s/ensures:%s' % (pid, label), f, 'ensures')
                         for label, f in contract.post(a, outcome[1], cfg):
                             ctx.oblige('p%s/ensures:%s' % (pid, label), f, 'ensures')
+                        if hasattr(contract, 'path_post'):
+                            for label, f in contract.path_post(a, cfg, ctx):
+                                ctx.oblige('p%s/ensures:%s' % (pid, label), f, 'ensures')
                     else:
                         rep.raises += 1
                         acc = contract.accepts(a, cfg)
